@@ -296,5 +296,7 @@ def run(ctx):
                        "shapes and values incl. malformed ones; every leaf code x INC deltas / REMOVE_VAL values / comparator x threshold; "
                        "op pairs), expected outcomes computed by TLC from spec/Patch.tla, each case run on the real code in two "
                        "container-header styles; non-trivial = the strict specification says the patch succeeds and changes the body; "
-                       "distinct by (body, ops, condition)")
-    ctx.cov["exhaustive"] = thorough
+                       "distinct by (body, ops, condition). thorough: families F0-F5, F7 and the swamp-level family S1 are enumerated "
+                       "completely, the op-pair family F6 (650 754 cases) at 50 %; quick: F0 completely, the others sampled by seed")
+    # the pair family is sampled in both tiers, so the finite case space is not enumerated completely
+    ctx.cov["exhaustive"] = False
